@@ -916,10 +916,12 @@ def module_scope(ix, relpath, _depth=0, _seen=None):
     """what the functions of a module see as globals, for the interpreter: its constants, its functions (LocalFn), its classes (LocalClass, bases resolved inside the
     package) and the like-named objects it imports from other modules of the package"""
     _seen = _seen if _seen is not None else {}
-    if relpath in _seen:
-        return _seen[relpath]
+    depths = _seen.setdefault('//depths', {})
+    if relpath in _seen and depths.get(relpath, 0) <= _depth:
+        return _seen[relpath]          # (a scope computed deeper in the import chain followed fewer imports: it is computed again when asked for from higher up)
     env = {}
     _seen[relpath] = env
+    depths[relpath] = _depth
     mod = ix.module(relpath)
     ev = Evaluator(env)
     retry = []
